@@ -204,6 +204,7 @@ func (e *executableWorkflow) Execute(ctx context.Context, serializedInput any) (
 		// This is to prevent a deadlock.
 		l.lock.Lock()
 		defer l.lock.Unlock()
+		l.started = true
 		l.notifySteps()
 	}()
 
@@ -309,6 +310,8 @@ type loopState struct {
 	runningSteps      map[string]step.RunningStep
 	outputDataChannel chan outputDataType
 	outputDone        bool
+	// started is set once the input has been handed to the steps for the first time.
+	started bool
 	// waitingOutputs keeps track of all workflow output nodes to know when the workflow fails.
 	waitingOutputs  map[string]dgraph.Node[*DAGItem]
 	context         context.Context
@@ -377,7 +380,9 @@ func (l *loopState) onStageComplete(
 ) {
 	l.lock.Lock()
 	defer func() {
-		if previousStage != nil {
+		// Once the workflow has started, also check when a step merely announces its first
+		// stage: that may be the last thing that happens in a workflow that is stuck.
+		if previousStage != nil || l.started {
 			l.checkForDeadlocks(3, wg)
 		}
 		l.lock.Unlock()
